@@ -59,7 +59,7 @@ def run_shard(shard, ctx):
                      "relinked-visor", "relinked-ustar", "open-by-name-after-fileobj", "pax-size-override-ustar", "pax-size-override-between-visor",
                      "pax-size-before-nonregular-with-offset", "data-inside-header-area", "names-with-magic-text",
                      "ustar-prefix-lengths", "stacked-pax-xsize+g", "stacked-pax-xsize+xpath", "stacked-pax-g+xsize",
-                     "stacked-pax-xpath+xsize", "stacked-pax-Xsize+g", "stacked-pax-xsize+g+xpath"):
+                     "stacked-pax-xpath+xsize", "stacked-pax-Xsize+g", "stacked-pax-xsize+g+xpath", "shared-data-offsets"):
             run_case({"special": what}, ctx)
         return
     if shard.get("high"):
@@ -134,7 +134,26 @@ def _case_special(case, ctx):
     ctx.states += 1
     with ctx.watch(case):
         try:
-            if what.startswith("duplicate"):
+            if what == "shared-data-offsets":
+                # several members record the same data offset with different sizes (an empty member whose offset is where the
+                # next file's data starts; a member that is a prefix of another one): every order of extraction on one object
+                full = _data(5, 600)
+                other = _data(6, 700)
+                spec = [("s/empty", 0, 4096), ("s/full", 600, 4096), ("s/prefix", 100, 4096), ("s/other", 700, 8192),
+                        ("s/empty2", 0, 8192), ("s/inner", 50, 4096 + 512)]
+                head = b"".join(B.hdr(nm, sz, offset_data=off) for nm, sz, off in spec) + b"\0" * 1024
+                raw = bytearray(head.ljust(4096, b"\0") + full.ljust(4096, b"\xEE") + other.ljust(1024, b"\xEE"))
+                content = {nm: bytes(raw[off:off + sz]) for nm, sz, off in spec}
+                exp, got = [], []
+                for order in itertools.permutations(range(len(spec))):
+                    t = vmtar.open(fileobj=io.BytesIO(bytes(raw)))
+                    ms = {m.name: m for m in t.getmembers()}
+                    exp.append([(spec[i][0], content[spec[i][0]]) for i in order])
+                    got.append([(spec[i][0], t.extractfile(ms[spec[i][0]]).read()) for i in order])
+                    if got[-1] != exp[-1]:
+                        break
+                    exp.pop(), got.pop()
+            elif what.startswith("duplicate"):
                 kind = "ustar" if what == "duplicate-inline" else "visor"
                 # the same entry (identical header metadata) appended twice with different content, as `tar -r` produces
                 members = [("d/", "vdir", b""), ("d/same", kind, b"FIRST" * 103), ("d/x", "visor", b"X" * 700),
